@@ -230,7 +230,10 @@ Section Plain.
               rewrite Ei. split; [unfold RoundtripGen.e_prim; eauto|apply (plain_nil var)]. }
             apply (item_ok_inv c u ok n var y Hyn) in Hok. unfold ienode.
             pose proof (noq_occ var x y Hnx Hy) as Hny.
-            destruct (wf_elem_inv var Hw) as [_ [_ [[k [Hty [Hcl Htf]]]|[[t [Hty [Hst Hcl]]]|[Hty [_ Htf3]]]]]].
+            destruct (wf_elem_inv var Hw) as [_ [_ [[k [Hty [Hcl Htf]]]|[[t [Hty [Hst Hcl]]]|[[Hty [_ Htf3]]|[Hty [_ [Htf3 _]]]]]]]].
+            4:{ rewrite Htf3 in *. destruct (fits_item_any c u ok _ var y Hty Hok) as [sx [-> [Hp _]]].
+                cbn [RoundtripGen.e_item]. split; [unfold RoundtripGen.e_prim; eauto|].
+                apply (plain_prim var TStr). apply vs_leaf. exact Hp. }
             3:{ rewrite Htf3 in *. destruct (fits_item_qname c u ok _ var y Hty Hok) as [q1 [-> _]]. discriminate Hny. }
             - pose proof (Hexy k y Hcl Htf Hy Hyn) as Hey.
               rewrite Htf in *. destruct (fits_item_class c u ok _ var k y Hty Hok) as [cl' [fs' [-> Hfk0]]].
